@@ -28,9 +28,12 @@ type gzipResponseWriter struct {
 	contentTypes []string
 
 	buf            bytes.Buffer
-	bufferExceeded bool // Track if we exceeded max buffer size
+	bufferExceeded bool // Track if we exceeded max buffer size (or gave up on compression)
+	headerSent     bool // Status code and headers were committed to the underlying writer
 }
 
+// WriteHeader records the status code. It is sent by sendHeader once it is known whether the
+// body will be compressed, because Content-Encoding and Content-Length must be final by then.
 func (g *gzipResponseWriter) WriteHeader(code int) {
 	if g.wroteHeader {
 		return
@@ -38,28 +41,53 @@ func (g *gzipResponseWriter) WriteHeader(code int) {
 
 	g.statusCode = code
 	g.wroteHeader = true
-	g.ResponseWriter.WriteHeader(code)
+}
+
+// sendHeader commits the recorded status code (200 if none) with the headers as they are now.
+func (g *gzipResponseWriter) sendHeader() {
+	if g.headerSent {
+		return
+	}
+	if !g.wroteHeader {
+		g.statusCode = http.StatusOK
+		g.wroteHeader = true
+	}
+	g.headerSent = true
+	g.ResponseWriter.WriteHeader(g.statusCode)
+}
+
+// passThrough gives up on compressing this response: the header goes out unchanged and what was
+// buffered so far is written as is; later writes are streamed.
+func (g *gzipResponseWriter) passThrough() {
+	if g.bufferExceeded {
+		return
+	}
+	g.bufferExceeded = true
+	g.sendHeader()
+	if g.buf.Len() > 0 {
+		_, _ = g.ResponseWriter.Write(g.buf.Bytes())
+		g.buf.Reset()
+	}
 }
 
 func (g *gzipResponseWriter) Write(b []byte) (int, error) {
+	// Once compression was given up, stream directly
+	if g.bufferExceeded {
+		return g.ResponseWriter.Write(b)
+	}
 	// Check if adding this data would exceed max buffer size
 	if g.buf.Len()+len(b) > MaxCompressionBufferSize {
-		// Mark as exceeded and fall back to streaming uncompressed
-		if !g.bufferExceeded {
-			g.bufferExceeded = true
-			// Flush existing buffer uncompressed
-			if g.buf.Len() > 0 {
-				_, _ = g.ResponseWriter.Write(g.buf.Bytes())
-				g.buf.Reset()
-			}
-		}
-		// Stream directly without compression
+		// Fall back to streaming uncompressed
+		g.passThrough()
 		return g.ResponseWriter.Write(b)
 	}
 	return g.buf.Write(b)
 }
 
+// Flush delivers what was written so far. A handler that flushes is streaming, so the response is
+// passed through uncompressed from here on.
 func (g *gzipResponseWriter) Flush() {
+	g.passThrough()
 	if f, ok := g.ResponseWriter.(http.Flusher); ok {
 		f.Flush()
 	}
@@ -72,58 +100,61 @@ func (g *gzipResponseWriter) Hijack() (net.Conn, *bufio.ReadWriter, error) {
 	return nil, nil, fmt.Errorf("underlying ResponseWriter does not support hijacking")
 }
 
-func (g *gzipResponseWriter) Finish() error {
-	if !g.wroteHeader {
-		g.WriteHeader(http.StatusOK)
+// shouldGzip decides whether the buffered body is compressed.
+func (g *gzipResponseWriter) shouldGzip(body []byte) bool {
+	if len(body) == 0 || len(body) < g.minSize {
+		return false
 	}
+	// already encoded by the backend: never encode twice
+	if g.Header().Get("Content-Encoding") != "" {
+		return false
+	}
+	if clHeader := g.Header().Get("Content-Length"); clHeader != "" {
+		// if Content-Length header found and is less than the minSize then return the body as is.
+		if cl, err := strconv.Atoi(clHeader); err == nil && cl < g.minSize {
+			return false
+		}
+	}
+	// return body as is when Content-Type doesn't match specified in Config
+	return matchesContentType(g.Header().Get("Content-Type"), g.contentTypes)
+}
 
-	// If buffer was exceeded, data was already streamed uncompressed
+func (g *gzipResponseWriter) Finish() error {
+	// If compression was given up, data was already streamed uncompressed
 	if g.bufferExceeded {
 		return nil
 	}
 
 	body := g.buf.Bytes()
 
-	clHeader := g.Header().Get("Content-Length")
-	if clHeader != "" {
-		cl, err := strconv.Atoi(clHeader)
-		// if Content-Length header found and is less than the minSize then return the body as is.
-		if err == nil && cl < g.minSize {
-			_, err := g.ResponseWriter.Write(body)
-			return err
+	if !g.shouldGzip(body) {
+		g.sendHeader()
+		if len(body) == 0 {
+			return nil
 		}
-	}
-
-	// acts as a fallback when Content-Length is not available.
-	if len(body) < g.minSize {
 		_, err := g.ResponseWriter.Write(body)
 		return err
 	}
 
-	// return body as is when Content-Type doesn't match specified in Config
-	ct := g.Header().Get("Content-Type")
-	if !matchesContentType(ct, g.contentTypes) {
-		_, err := g.ResponseWriter.Write(body)
+	gz, err := gzip.NewWriterLevel(g.ResponseWriter, g.level)
+	if err != nil {
+		// cannot compress: deliver the body unchanged
+		g.sendHeader()
+		_, werr := g.ResponseWriter.Write(body)
+		if werr != nil {
+			return werr
+		}
 		return err
 	}
 
 	g.Header().Set("Content-Encoding", "gzip")
 	// Remove Content-Length since compressed size differs from original
 	g.Header().Del("Content-Length")
-
-	gz, err := gzip.NewWriterLevel(g.ResponseWriter, g.level)
-	if err != nil {
-		return err
-	}
-	defer func() {
-		if err := gz.Close(); err != nil {
-			// Log the error but don't fail the request
-			_ = err // Explicitly ignore
-		}
-	}()
+	g.sendHeader()
 
 	_, err = gz.Write(body)
 	if err != nil {
+		_ = gz.Close()
 		return err
 	}
 
